@@ -4,7 +4,8 @@ CHECK = Check(
     "C18",
     streams=[Stream("stranymap", drv="c18", sub="c18",
                     nontrivial=lambda tags, inp: not tags.startswith("silent") and ",empty," not in tags,
-                    descr="one map[string]any tree and a history of StringAnyMapInspector operations, observed after every step")],
+                    descr="one map[string]any tree and a history of StringAnyMapInspector operations, observed after every step; "
+                          "and several trees / caller-held nodes sharing nested map objects, every holder dumped after every step")],
     rule=("trees: every leaf kind (nil, bool, ten integer kinds, string, []byte with spare capacity) under each of the three holding "
           "forms (map, *map, **map), every pair of forms over two levels, empty maps, the shape of /repo's own test value in three "
           "form assignments, a depth-4 chain through all forms, the six nil holders at the root / one / two levels down, plus seeded "
@@ -15,8 +16,22 @@ CHECK = Check(
           "path back and dumping the whole tree; Copy then Reset of the copy; Reset then Set; CopyTo into empty / populated / nil "
           "destinations; DeepEqual. Seeded random histories (Set/Get/Length/Capacity/Compare/Loop/Copy/CopyTo/Reset, up to 12 steps, "
           "whole tree dumped after every step). Memory sharing of Copy/CopyTo results and of stored strings/bytes is observed "
-          "natively from address ranges. Non-trivial = has a non-empty path or a state change; distinct = distinct input string."),
-    assumptions=["values are trees: no map is reachable twice (the harness builds them so); cyclic values are outside the model",
+          "natively from address ranges. SHARED nested maps (tag share): two trees (the nine form pairs over two levels, /repo's test "
+          "shape, the depth-4 chain; every nested-map path of the first) and holders appended by Get / Copy / re-wrapping a map in "
+          "another holding form; six scenario families (nested map moved into the other tree with Set - directly or below a created "
+          "chain - then Reset of the source / of the other tree / of the moved map, writes through either tree, CopyTo and Copy "
+          "followed by resets and writes on both sides, CopyTo over a tree whose old nested map is still held) plus seeded random "
+          "holder histories (Get / Set of a holder or a value / Length / Reset / Copy / CopyTo / re-wrap, 3-8 steps, cycles and "
+          "CopyTo into a part of its own source are not generated); after EVERY step EVERY holder is dumped (keys sorted, no "
+          "addresses), model = Model/StrAnyMapHeap.v, demand = Spec/StrAnyMapStore.v. "
+          "Non-trivial = has a non-empty path or a state change; distinct = distinct input string."),
+    assumptions=["single-tree cases: values are trees, no map is reachable twice (the harness builds them so); the share cases lift this: "
+                 "map objects have identity (a store of objects), any number of trees and holders may reach one object",
+                 "cyclic values are not generated (the theorems of the heap model hold for them, the Go code need not terminate); the harness "
+                 "prints a map that contains itself as {CYCLE} and abandons the case",
+                 "CopyTo whose destination object is reachable from its source is not generated (the result depends on map iteration order)",
+                 "in the heap model pointer cells of *map / **map have no identity (stranymap.go never writes one), nil holders and string / "
+                 "byte memory are left to the tree model",
                  "map iteration order is not observed: Loop results are compared as sorted sets, under Break as count + membership",
                  "Get's (nil, nil) for a stored nil leaf is indistinguishable from 'no value' and printed alike",
                  "observations print a nil map / nil pointer holder as the empty map of its form (the specification's abstraction)",
@@ -32,6 +47,12 @@ MANIFEST = {
              "the leaf, creates intermediate maps, errors leave the tree untouched) with C18_set_hits / C18_set_frame (nothing off the "
              "path changes) and C18_set_copies_into_buffer, C18_copy_equal / C18_copy_fresh / C18_copyto_equal_fresh, "
              "C18_reset_empties / C18_reset_in_place, C18_history (fold_left over operation lists against the abstract tree), "
+             "and over stores of map OBJECTS shared between trees and holders (Model/StrAnyMapHeap.v, any store, cyclic ones "
+             "included): C18_share_reset_exact / _empties_addressed / _frame / _holders (Reset empties the object its argument "
+             "holds and no other, so every holder that does not reach it sees the same tree), C18_share_set_frame / _holders "
+             "(Set writes only the object the path addresses) and C18_share_set_exact (Set is the specification's s_set when the "
+             "path meets no object twice), C18_share_copyto_frame / _holders / _fresh, C18_share_copy_frame / _holders / _fresh "
+             "(copies change nothing that existed and reach nothing that existed), "
              "C18_*_never_panic. C18_refuted_* give the witnesses for the three defects repaired by fix commits (nil pointer "
              "dereference, Capacity ending in Length, Reset of a by-value map) and for the three open nil-holder findings. The model "
              "is tied to the code by running the extracted model and the real inspector on the same trees and histories."),
